@@ -11,6 +11,9 @@ import Reamber.Generated.RateSchema
 import Reamber.Spec.Timing
 import Reamber.Lemmas.RateFormats
 import Reamber.Lemmas.RateSMWrite
+import Reamber.Lemmas.RateSMFull
+import Reamber.Lemmas.RateSMBridge
+import Reamber.Lemmas.RateBMS
 import Reamber.Props.C01
 import Reamber.Props.C06
 
@@ -291,9 +294,9 @@ list with the 4-beat metronome, object and tempo times on the snap grid) and eve
 3. the sample window of the file is the rated one.
 
 _partial_: what is missing for `denote (writeText (rate r ms)) = rate r ms` is C03's own missing part (text of the
-header lines, `changesOf (written #BPMS) = cs` through `round6`, the pairing inverse, `timeAt ∘ beatAt = id` of C10) and
-the frame-level bridge from `rateSet .sm` to `rateHdr` / `rateW` (built for Quaver and osu, not for StepMania: the writer
-model merges the eight note lists into one kinded list).  The write → read correspondence check covers the composition. -/
+header lines); the rest of the chain is `rate_write_read_sm` (composition with C03's `write_read_exact`) and
+`rateSet_sm_typed` (the frame-level bridge from `rateSet .sm`).  This theorem is the `Written`-level piece: it is the
+one that speaks about `SMMapSet.write` itself and about `#SAMPLESTART` / `#SAMPLELENGTH`. -/
 theorem rate_write_read_sm_partial {r : Rat} (hr : 0 < r) (h : WHeader) (charts : List WChart)
     (hok : ∀ c ∈ charts, WChartOk c) :
     SM.write (rateHdr r h) (charts.map (rateW r)) = (SM.write h charts).map (rateWritten r) ∧
@@ -307,6 +310,131 @@ theorem rate_write_read_sm_partial {r : Rat} (hr : 0 < r) (h : WHeader) (charts 
   have : -(1000 * (w.offsetSec / r)) = -(1000 * w.offsetSec) / r := by ring
   rw [this]
   exact rate_write_read_partial r _ _ _
+
+open SM in
+/-- **rateSet_sm_typed** — the frame-level bridge for StepMania: `SMMapSet.rate` (the model `rateSet .sm .sm` on the
+frames the library holds: the nine lists of every `SMMap`, `offset`, `sample_start`, `sample_length`) is `rateHdr` /
+`rateW` on the set as C03's writer sees it.  So `rate_write_read_sm_partial` and `rate_write_read_sm` speak about what
+the modelled code returns. -/
+theorem rateSet_sm_typed (r : Rat) (hr : r ≠ 0) (h : WHeader) (charts : List WChart) :
+    rateSet .sm .sm r (encSm h charts) = .ok (encSm (rateHdr r h) (charts.map (rateW r))) := by
+  rw [rateSet_scales .sm .sm r _ (setOk_encSm h charts) hr, scaleSet_encSm]
+
+open SM C03 Timing in
+/-- **rate_write_read_sm** — StepMania, the whole file.  Take a set in C03's domain for `(t0, cs)` (`ChartWritten`:
+C10's domain for the shared tempo list, objects on the snap grid, `EventsOK`, non-overlapping holds / rolls; `out` the
+measures `SMMap.write` emits) and any `r > 0`.  Let `items` be the written file of the **rated** set: its `#NOTES`
+values are the rated charts `L.map (rateL r)` — which carry the *same* measures (`chartWritten_rate`: the rows do not
+move, `beats_rate`) — its `#OFFSET` parses to `offsetSec / r` and its `#BPMS` to the original pairs with every tempo
+multiplied by `r` (that this is what `SMMapSet.write` puts there is `sm_write_rate`).  Then the StepMania denotation of
+that file exists, is well-formed, has one chart per chart of the set, every chart is well-bracketed, and — read by row
+scanner, `4m + 4r/R`, latest-unclosed-head pairing and integration over the written `#BPMS` from `−1000·#OFFSET` — has
+exactly the **rated** objects: same kinds and columns, every time and every hold / roll length divided by `r`
+(as a multiset).  Composition of `chartWritten_rate`, `changesOf_rate` with C03's `write_read_exact`.
+
+What stays outside (and is C03's own remaining `_partial`, not specific to the rate change): that the *text* produced by
+`SMMapSet.write` is `renderItems items` for these items (`render_items_partial`), and the float renderer assumption
+behind "parses to" (`parseFloat (show q) = .ok q`).  `#SAMPLESTART` / `#SAMPLELENGTH` are covered at the `Written` level
+(`rate_write_read_sm_partial`), not in the text. -/
+theorem rate_write_read_sm {r : Rat} (hr : 0 < r) (t0 : Rat) (cs : List BcSnap)
+    (hwf : wfChanges cs = true) (hs : sortedSnaps cs = true) (h0 : firstAtZero cs = true)
+    (hgc : gridCompatible (grid defaultMaxDiv) cs = true) (hm : metronomeOk cs = true) (hM : ∀ c ∈ cs, c.met = 4)
+    (items : List Item) (hok : ∀ it ∈ items, ItemOk it)
+    (L : List (WChart × List (List Str) × (Str × Str × Str × Str × Str)))
+    (hL : ∀ x ∈ L, ChartWritten t0 cs x.1 x.2.1)
+    (hnotes : (valuesOf items).filter (tagIs tagNotes) = (L.map (rateL r)).map notesValue)
+    (offT bpmT : Str) (offsetSec : Rat) (bpms : List (Rat × Rat))
+    (hoffv : firstParam (valuesOf items) tagOffsetS = some offT) (hoff : parseFloat offT = .ok (offsetSec / r))
+    (hbpmv : firstParam (valuesOf items) tagBpmsS = some bpmT)
+    (hbpm : parsePairs bpmT = some (bpms.map (fun p => (p.1, p.2 * r))))
+    (ho : -(1000 * offsetSec) = t0) (hbp : changesOf bpms = cs) :
+    ∃ d, SM.denote (renderItems items) = some d ∧ d.offsetSec = some (offsetSec / r) ∧
+      d.bpms = some (bpms.map (fun p => (p.1, p.2 * r))) ∧
+      d.chartsWellFormed = true ∧ d.charts.length = L.length ∧
+      ∀ (i : Nat) (hi : i < L.length) (hd : i < d.charts.length),
+        (d.charts[i]).wellBracketed = true ∧
+        (timedNotes (offsetSec / r) (bpms.map (fun p => (p.1, p.2 * r))) d.charts[i]).Perm
+          ((L[i]).1.notes.map (fun n => (⟨n.kind, n.col, n.time / r, (timedOfW n).length / r⟩ : TNote))) := by
+  have hL' : ∀ x ∈ L.map (rateL r), ChartWritten (t0 / r) (cs.map (rateBc r)) x.1 x.2.1 := by
+    intro x hx
+    obtain ⟨x0, hx0, rfl⟩ := List.mem_map.mp hx
+    exact chartWritten_rate hr t0 cs hwf hs h0 hgc hm hM x0.1 x0.2.1 (hL x0 hx0)
+  have ho' : -(1000 * (offsetSec / r)) = t0 / r := by rw [← ho]; ring
+  have hbp' : changesOf (bpms.map (fun p => (p.1, p.2 * r))) = cs.map (rateBc r) := by rw [changesOf_rate, hbp]
+  obtain ⟨d, hd, h1, h2, h3, h4, h5⟩ := write_read_exact (t0 / r) (cs.map (rateBc r)) (wfChanges_rate hr cs hwf)
+    (by rw [sortedSnaps_rate]; exact hs) (by rw [firstAtZero_rate]; exact h0)
+    (by rw [gridCompatible_rate]; exact hgc) (by rw [metronomeOk_rate]; exact hm)
+    (by
+      intro c hc
+      obtain ⟨c0, hc0, rfl⟩ := List.mem_map.mp hc
+      exact hM c0 hc0)
+    items hok (L.map (rateL r)) hL' hnotes offT bpmT (offsetSec / r) (bpms.map (fun p => (p.1, p.2 * r)))
+    hoffv hoff hbpmv hbpm ho' hbp'
+  refine ⟨d, hd, h1, h2, h3, by simpa using h4, ?_⟩
+  intro i hi hdi
+  obtain ⟨_, hb, hp⟩ := h5 i (by simpa using hi) hdi
+  refine ⟨hb, ?_⟩
+  have e : ((L.map (rateL r))[i]'(by simpa using hi)).1.notes.map timedOfW
+      = (L[i]).1.notes.map (fun n => (⟨n.kind, n.col, n.time / r, (timedOfW n).length / r⟩ : TNote)) := by
+    simp only [List.getElem_map, rateL, rateW, List.map_map]
+    apply List.map_congr_left
+    intro n _
+    simp only [Function.comp_def, timedOfW_rate]
+  rw [← e]
+  exact hp
+
+open Timing BMS PermInv in
+/-- **rate_write_read_bms_partial** — BMS, the whole file, by composition with C05's `bms_write_read`.  `cs` a tempo list
+in C05's domain, `c` a chart whose tempo rows are (in any order) the stored form of `cs` with the first tempo point at
+time 0 (BMS has no file offset — ¬D35; the rated chart keeps it: `0 / r = 0`), `BmsOk`, `HeaderOK`; `r > 0`.  The
+rate-invariant part of C05's domain is derived for the rated chart `rateB r c` (tempo list `cs` with every tempo `× r`:
+well-formed, strictly ascending, first at zero, grid-compatible, 4/4; the tempo rows a permutation of its stored form;
+`BmsOk`; `HeaderOK`).  Under C05's remaining hypotheses **stated on the rated chart** the writer succeeds on the rated
+chart, the file has a by-the-book meaning `d`, `d.tempo` is the header tempo followed by exactly the rated tempo list,
+and the by-the-book time of the written position of every rated object time `t` is `t` — exactly whenever the
+*original* time `t · r` lies on the snap grid of the original tempo list (on-grid-ness is rate-invariant,
+`onGridAt_rate`), within 1/192 beat at the rated tempo otherwise.
+
+_partial_ — what is *not* derived from the un-rated chart and therefore stays a hypothesis on the rated one:
+* `hdec`: every rated tempo is a three-decimal number — genuinely not rate-invariant (open D06: `#BPMxx` is written
+  with `:.3f`; 156.25 · 1/4 is not);
+* `hR`, `hv`, `hitems`, `hasc`: renderable collision-free rows (measures 000–999: a rate `r < 1` can push a chart past
+  measure 999 — D36), lane order — these are stated through `posFn` (snaps as executed); their invariance needs the
+  `snaps` analogue of `beats_rate`, which is not proved here;
+* `hhdr`: the header of the rated chart is written (depends on the rendered tempo values);
+* the frame-level bridge from `rateChart .bms` to `rateB` (built for osu, Quaver, StepMania) is not built for BMS. -/
+theorem rate_write_read_bms_partial {r : Rat} (hr : 0 < r) (cs : List BcSnap) (hwf : wfChanges cs = true)
+    (hs : strictSnaps cs = true) (h0 : firstAtZero cs = true)
+    (hgc : gridCompatible (grid defaultMaxDiv) cs = true) (hm : metronomeOk cs = true)
+    (lay : Layout) (hlay : LayoutOK lay)
+    (hts : lay.exbpmCh ≠ lay.timeSig ∧ ∀ lane ∈ lay.lanes, lane.1 ≠ lay.timeSig)
+    (dflt : Bytes) (c : BMS.WChart) (hp : c.bpms.Perm (tmOf 0 cs)) (hok : BmsOk cs lay c) (hH : HeaderOK c)
+    (hR : RowsOK (bmsNoteRows (cs.map (rateBc r)) lay dflt (rateB r c) ++ bmsTempoRows (cs.map (rateBc r)) lay (rateB r c)))
+    (hv : ∀ x ∈ bmsNoteRows (cs.map (rateBc r)) lay dflt (rateB r c), x.value ≠ ['0', '0'])
+    (hdec : ∀ b ∈ (rateB r c).bpms, roundDec 3 b.bpm = b.bpm)
+    (hl : List Bytes) (hhdr : writeHeader (rateB r c) = .ok hl)
+    (items : Bytes × Nat → List TAtom)
+    (hitems : ∀ lane ∈ lay.lanes, (items lane).Perm (laneItems (rateB r c) dflt lane.2) ∧
+      (∀ a ∈ items lane, a.idOk (rateB r c).lnEnd))
+    (hasc : ∀ lane ∈ lay.lanes, ((items lane).flatMap TAtom.times).Pairwise (fun a b => a ≤ b)) :
+    ∃ lines d b0, BMS.write defaultGrid lay dflt (rateB r c) = .ok lines ∧ BMS.denote lay lines = some d ∧
+      (rateB r c).bpms.head? = some b0 ∧ d.tempo = ⟨b0.bpm, 4, ⟨0, 0, some 4⟩⟩ :: cs.map (rateBc r) ∧
+      ∀ lane ∈ lay.lanes, ∀ a ∈ items lane, ∀ t ∈ a.times,
+        rabs (timeAt 0 d.tempo (posOf (posFn (cs.map (rateBc r)) t)) - t)
+            ≤ 1 / 192 * activeBeatLen 0 (cs.map (rateBc r)) t ∧
+        (OnGridAt (grid defaultMaxDiv) 0 cs (t * r) → timeAt 0 d.tempo (posOf (posFn (cs.map (rateBc r)) t)) = t) := by
+  obtain ⟨lines, d, b0, h1, h2, h3, h4, _, _, _, _, h9⟩ :=
+    bms_write_read (cs.map (rateBc r)) (wfChanges_rate hr cs hwf) (by rw [strictSnaps_rate]; exact hs)
+      (by rw [firstAtZero_rate]; exact h0) (by rw [gridCompatible_rate]; exact hgc) (by rw [metronomeOk_rate]; exact hm)
+      lay hlay hts dflt (rateB r c) (bpms_perm_rate r c cs hp) (bmsOk_rate hr cs lay c hok) hR hv (headerOK_rate hr c hH)
+      hdec hl hhdr items hitems hasc
+  refine ⟨lines, d, b0, h1, h2, h3, h4, ?_⟩
+  intro lane hlane a ha t ht
+  obtain ⟨e1, e2⟩ := h9 lane hlane a ha t ht
+  refine ⟨e1, fun hg => e2 ?_⟩
+  have := (onGridAt_rate hr (grid defaultMaxDiv) 0 cs hwf (t * r)).mpr hg
+  have hr' : r ≠ 0 := ne_of_gt hr
+  simpa [mul_div_assoc, div_self hr'] using this
 
 /-- non-vacuity of `WChartOk`: one tempo (120 bpm from 1000 ms), a hit on beat 1 and a hold from beat 2 to 3 -/
 def exW : SM.WChart :=
